@@ -372,10 +372,11 @@ func checkInvariants(tr *tree, where string, strictPool bool) (head *mblock, err
 			if ex.Receipt.BlockHash != in.hdr.Hash {
 				return head, fmt.Errorf("%s: tx%d executed record points to block %s, canonical one is %s", where, i, ex.Receipt.BlockHash.Hex(), in.name())
 			}
+		} else if ex != nil {
+			// executed records are durable: also after a crash + restart none may name a block that is not on the chain
+			// (such a transaction could never be submitted or packed again)
+			return head, fmt.Errorf("%s: tx%d is in no canonical block but still has an executed record (block %s)", where, i, ex.Receipt.BlockHash.Hex())
 		} else if strictPool {
-			if ex != nil {
-				return head, fmt.Errorf("%s: tx%d is in no canonical block but still has an executed record (block %s)", where, i, ex.Receipt.BlockHash.Hex())
-			}
 			if !pool.IsExisted(tx.Hash) {
 				return head, fmt.Errorf("%s: tx%d is in no canonical block and is not pending either", where, i)
 			}
